@@ -28,6 +28,7 @@ import (
 	"sort"
 	"strings"
 	"sync"
+	"sync/atomic"
 	"time"
 
 	"github.com/mycoria/mycoria/m"
@@ -1208,6 +1209,34 @@ func churn(c *vf.Ctx, rng *rand.Rand, n, ops int) (events []any) {
 		a, b := nodes[i], nodes[j]
 		switch k := rng.Intn(10); {
 		case k < 3: // connect
+			if rng.Intn(2) == 0 {
+				// ... and one end closes the new link by its manager at the very moment the registry turns to the routing
+				// table for it: the close is started from inside that call and given 30 ms to get through (it cannot while
+				// the registry holds its lock; then it runs right after the registration)
+				x, y := a, b
+				if rng.Intn(2) == 0 {
+					x, y = b, a
+				}
+				var fired atomic.Bool
+				hook := func() {
+					if fired.Load() {
+						return
+					}
+					done := make(chan struct{})
+					go func() {
+						defer close(done)
+						if l := x.Peer.GetLink(y.ID.IP); l != nil && fired.CompareAndSwap(false, true) {
+							x.OnRoutingTable.Store(nil)
+							x.Peer.CloseLink(y.ID.IP)
+						}
+					}()
+					select {
+					case <-done:
+					case <-time.After(30 * time.Millisecond):
+					}
+				}
+				x.OnRoutingTable.Store(&hook)
+			}
 			conns = append(conns, &pc{pd: linkworld.Start(a, b), a: a, b: b})
 		case k < 6: // both dial each other at the same time
 			conns = append(conns, &pc{pd: linkworld.Start(a, b), a: a, b: b}, &pc{pd: linkworld.Start(b, a), a: b, b: a})
